@@ -123,7 +123,9 @@ func ExecC11BinKey(c BinKeyCase) *ev.Result {
 	r := &ev.Result{}
 	var keys []string
 	for _, h := range c.KeysHex {
-		if b, err := hex.DecodeString(h); err == nil && len(b) > 0 {
+		if h == "-" {
+			keys = append(keys, "") // the empty key
+		} else if b, err := hex.DecodeString(h); err == nil && len(b) > 0 {
 			keys = append(keys, string(b))
 		}
 	}
@@ -142,7 +144,7 @@ func ExecC11BinKey(c BinKeyCase) *ev.Result {
 	for i, op := range c.Ops {
 		key := keys[abs(op.Key)%len(keys)]
 		keyed := op.K != "keys" && op.K != "begin" && op.K != "commit" && op.K != "rollback"
-		if keyed && !utf8.ValidString(key) {
+		if keyed && (!utf8.ValidString(key) || key == "") {
 			bin = true
 		}
 		if in[i].cls == ex[i].cls && in[i].data == ex[i].data {
